@@ -95,7 +95,18 @@ class Ctx:
         self.n_branch_checks += 1
         self.solver.push()
         self.solver.add(c)
-        r = self.solver.check()
+        # z3 does not always honour its own time-out (nonlinear / to_int goals): a watchdog interrupts the check; "interrupted" counts as
+        # "maybe feasible" (the path is explored, its obligations then go to the forked back ends with a hard limit)
+        import threading
+        wd = threading.Timer(self.opts.get("branch_timeout_ms", 1500) / 1000.0 + 1.0, lambda: z3.main_ctx().interrupt())
+        wd.daemon = True
+        wd.start()
+        try:
+            r = self.solver.check()
+        except z3.Z3Exception:
+            r = z3.unknown
+        finally:
+            wd.cancel()
         self.solver.pop()
         return r != z3.unsat
 
@@ -111,6 +122,8 @@ class Ctx:
         else:
             if len(self.decisions) > self.opts.get("max_depth", 400):
                 raise Unsupported("path too deep (unbounded symbolic loop?)")
+            if getattr(self, "deadline", None) is not None and time.time() > self.deadline:
+                raise Unsupported(f"exploration budget of {self.opts.get('max_explore_s', 300)} s exceeded inside a path")
             self._flush_axioms()
             ct = self._feasible(cond)
             cf = self._feasible(z3.Not(cond))
@@ -350,6 +363,7 @@ def explore(harness, vc_factory, opts=None):
     while work:
         prefix = work.pop()
         c = Ctx(prefix, opts)
+        c.deadline = t0 + opts.get("max_explore_s", 300)
         sym.set_ctx(c)
         vc = vc_factory(c)
         try:
@@ -410,6 +424,9 @@ def explore(harness, vc_factory, opts=None):
         work.extend(c.alts)
         if res.paths + res.aborted > max_paths:
             res.unsupported.append(f"more than {max_paths} paths")
+            break
+        if time.time() - t0 > opts.get("max_explore_s", 300):
+            res.unsupported.append(f"exploration budget of {opts.get('max_explore_s', 300)} s exceeded after {res.paths} paths")
             break
     res.seconds = time.time() - t0
     return res
